@@ -1,5 +1,6 @@
 import RModel.Model.Lock
 import RModel.Base.Utf8
+import RModel.Gen.LockUsers
 /-
   driver operations for the lock model (C12)
 
@@ -13,8 +14,12 @@ import RModel.Base.Utf8
   lockrun <initial-cell> <now> <spec> <nprocs> <schedule…>
      initial-cell  absent | empty | garbage | invalid | pidts:<pid>:<ts> | held:<ts>
                    pid = number | ORPHAN | P<i>     ts = number | now | now-k | now+k
-     spec          comma list of: debug | release | exits | linger | <extra alive pid>   (`-` = debug,exits)
-     schedule      <i> = next call of process i | t<k> = k seconds pass | * = run everybody to completion
+     spec          comma list of: debug | release | exits | linger | abandon-none | abandon-empty | abandon-unparsable |
+                   bylink | bycreate | <extra alive pid>
+                   (`-` = debug,exits; which unparsable lock files acquire removes and how it publishes its own
+                   default to what the source does, Gen.LockUsers)
+     schedule      <i> = next call of process i | t<k> = k seconds pass | i<k> = Ctrl-C at process k's confirmation
+                   prompt | * = run everybody to completion
      → `P0=<pc> … cell=<…> stolen=<0|1> maxholders=<k>`
   lockpending <same prefix + schedule>  → `P0=<next call|-> …`
   lockenum <initial-cell> <now> <spec> <nprocs> <glue|split|full>   all interleavings of the acquire phases
@@ -25,6 +30,14 @@ import RModel.Base.Utf8
 open Lock
 
 namespace OpsLock
+
+/-- which acquire the source has (regenerated from /repo): does it remove an empty lock file? -/
+def srcAbandon : Abandon := Gen.LockUsers.abandonPolicy
+def srcAtomic : Bool := Gen.LockUsers.publishByLink
+/-- a state of the acquire that the source has -/
+def src (s : State) : State :=
+  { s with abandon := srcAbandon, atomicPublish := srcAtomic, saturating := Gen.LockUsers.ageSaturates,
+           dropChecks := Gen.LockUsers.dropChecksContent }
 
 def selfPid : Nat := pidOf 0
 def seqNow : Nat := 1700000000
@@ -74,8 +87,10 @@ def showPidSeq (pid : Nat) : String := if pid == selfPid then "SELF" else toStri
 def showErrSeq : Err → String
   | .readFailed => "io-error:read"
   | .readInvalid => "io-error:read-content"
-  | .removeFailed true => "io-error:remove-stale"
-  | .removeFailed false => "io-error:remove-orphaned"
+  | .removeFailed .stale => "io-error:remove-stale"
+  | .removeFailed .orphaned => "io-error:remove-orphaned"
+  | .removeFailed .empty => "io-error:remove-empty"
+  | .removeFailed .unparsable => "io-error:remove-unparsable"
   | .alreadyRunning pid => s!"already-running:{showPidSeq pid}"
   | .createExists => "eexist"
 
@@ -92,8 +107,9 @@ def seqAlive (pid : Nat) : Bool := pid == selfPid || pid == 0
 def lockseq (debug : Bool) (cell : Option (List UInt8)) : String :=
   let s0 : State :=
     match cell with
-    | none => { initAbsent 1 seqNow debug false with alive := seqAlive }
-    | some bytes => { initFile 1 seqNow debug false (if Utf8.valid bytes then parseContent bytes else .invalid) with alive := seqAlive }
+    | none => { src (initAbsent 1 seqNow debug false) with alive := seqAlive }
+    | some bytes => { src (initFile 1 seqNow debug false (if Utf8.valid bytes then parseContent bytes else .invalid)) with
+                        alive := seqAlive }
   -- acquire: at most 8 calls
   let s1 := (List.replicate 8 0).foldl (fun st p => if st.pc p == .holding then st else (step st p).getD st) s0
   match s1.pc 0 with
@@ -109,6 +125,10 @@ def lockseq (debug : Bool) (cell : Option (List UInt8)) : String :=
 structure Spec where
   debug : Bool := true
   exits : Bool := true
+  abandon : Abandon := srcAbandon
+  atomic : Bool := srcAtomic
+  saturating : Bool := Gen.LockUsers.ageSaturates
+  dropChecks : Bool := Gen.LockUsers.dropChecksContent
   extra : List Nat := []
 
 def parseSpec (s : String) : Option Spec :=
@@ -121,6 +141,13 @@ def parseSpec (s : String) : Option Spec :=
       else if item == "release" then some { sp with debug := false }
       else if item == "exits" then some { sp with exits := true }
       else if item == "linger" then some { sp with exits := false }
+      else if item == "abandon-none" then some { sp with abandon := .none }
+      else if item == "abandon-empty" then some { sp with abandon := .empty }
+      else if item == "abandon-unparsable" then some { sp with abandon := .unparsable }
+      else if item == "bylink" then some { sp with atomic := true }
+      else if item == "bycreate" then some { sp with atomic := false }
+      else if item == "saturating" then some { sp with saturating := true }
+      else if item == "dropchecks" then some { sp with dropChecks := true }
       else match item.toNat? with
         | some n => some { sp with extra := n :: sp.extra }
         | none => none) (some {})
@@ -136,7 +163,8 @@ def splitColonChars (cs : List Char) : List (List Char) :=
 
 def parseInit (cell : String) (n now : Nat) (sp : Spec) : Option State :=
   let withAlive (s : State) : State :=
-    { s with alive := fun pid => s.alive pid || sp.extra.contains pid }
+    { s with alive := fun pid => s.alive pid || sp.extra.contains pid, abandon := sp.abandon, atomicPublish := sp.atomic,
+             saturating := sp.saturating, dropChecks := sp.dropChecks }
   match splitColonChars cell.toList with
   | [w] =>
     if w == "absent".toList then some (withAlive (initAbsent n now sp.debug sp.exits))
@@ -155,12 +183,13 @@ def parseInit (cell : String) (n now : Nat) (sp : Spec) : Option State :=
     else none
   | _ => none
 
-inductive Tok | proc (p : Nat) | tick (d : Nat) | settle
+inductive Tok | proc (p : Nat) | tick (d : Nat) | prompt (p : Nat) | settle
 
 def parseTok (s : String) : Option Tok :=
   match s.toList with
   | ['*'] => some .settle
   | 't' :: rest => (natOfChars rest).map .tick
+  | 'i' :: rest => (natOfChars rest).map .prompt
   | cs => (natOfChars cs).map .proc
 
 def parseToks : List String → Option (List Tok)
@@ -170,7 +199,11 @@ def parseToks : List String → Option (List Tok)
     | some a, some b => some (a :: b)
     | _, _ => none
 
-def countHolding (s : State) : Nat := (holdingList s).length
+/-- processes whose acquire has returned and whose Drop has not yet removed (or given up) the lock -/
+def countHolding (s : State) : Nat :=
+  ((List.range s.n).filter (fun p => match s.pc p with
+    | .holding | .dropCheck | .dropUnlink => true
+    | _ => false)).length
 
 /-- run with a ghost maximum of simultaneous holders -/
 def runToks : State → Nat → List Tok → State × Nat
@@ -179,6 +212,7 @@ def runToks : State → Nat → List Tok → State × Nat
     let s' := (step s p).getD s
     runToks s' (max m (countHolding s')) ts
   | s, m, .tick d :: ts => runToks { s with now := s.now + d } m ts
+  | s, m, .prompt p :: ts => runToks (promptExit s p) m ts
   | s, m, .settle :: ts =>
     -- every process can make at most 12 calls
     let rec go : Nat → State → Nat → State × Nat
@@ -194,8 +228,10 @@ def runToks : State → Nat → List Tok → State × Nat
 def showErr : Err → String
   | .readFailed => "read-enoent"
   | .readInvalid => "read-invalid"
-  | .removeFailed true => "remove-stale-enoent"
-  | .removeFailed false => "remove-orphaned-enoent"
+  | .removeFailed .stale => "remove-stale-enoent"
+  | .removeFailed .orphaned => "remove-orphaned-enoent"
+  | .removeFailed .empty => "remove-empty-enoent"
+  | .removeFailed .unparsable => "remove-unparsable-enoent"
   | .alreadyRunning pid => "already-running:" ++ (if pid ≥ 2 then s!"P{pid - 2}" else if pid == orphanPid then "ORPHAN" else toString pid)
   | .createExists => "eexist"
 
@@ -204,8 +240,10 @@ def showPc : Pc → String
   | .sawPresent => "saw"
   | .opened i => s!"opened:{if i == 0 then "init" else s!"P{i - 1}"}"
   | .readDone _ => "read"
-  | .unlinkPending true => "unlink-stale"
-  | .unlinkPending false => "unlink-orphaned"
+  | .unlinkPending .stale => "unlink-stale"
+  | .unlinkPending .orphaned => "unlink-orphaned"
+  | .unlinkPending .empty => "unlink-empty"
+  | .unlinkPending .unparsable => "unlink-unparsable"
   | .mkdir _ => "mkdir"
   | .create _ => "create"
   | .created _ => "created"
@@ -279,6 +317,7 @@ def traceToks : State → Nat → List Tok → List String → State × Nat × L
     let s' := (step s p).getD s
     traceToks s' (max m (countHolding s')) ts (s!"{p}:{kind}" :: acc)
   | s, m, .tick d :: ts, acc => traceToks { s with now := s.now + d } m ts (s!"t{d}" :: acc)
+  | s, m, .prompt p :: ts, acc => traceToks (promptExit s p) m ts (s!"{p}:promptint" :: acc)
   | s, m, .settle :: ts, acc => traceToks s m ts acc
 
 def locktrace (fields : List String) : String :=
@@ -363,18 +402,18 @@ def goneOrPresent (s : State) : String := if s.cell.isNone then "gone" else "pre
 
 def lockwit (debug : Bool) : String → String
   | "double_acquire" =>
-    let s1 := acquireAlone (initHeld 2 seqNow debug false seqNow) 1
+    let s1 := acquireAlone (src (initHeld 2 seqNow debug false seqNow)) 1
     let s2 := runP s1 [0, 0, 0]
     s!"second={showOutcomeWit s1 1} file-after-drop={goneOrPresent s2}"
   | "stale_live_evicted" =>
-    let s1 := acquireAlone (initHeld 2 seqNow debug false (seqNow - 301)) 1
+    let s1 := acquireAlone (src (initHeld 2 seqNow debug false (seqNow - 301))) 1
     match s1.pc 1 with
     | .holding =>
       let file := if s1.cell == some (inoOf 1) && s1.files (inoOf 1) == .pidts (pidOf 1) s1.now then "SELF:NOW" else "other"
       s!"second=acquired holders={countHolding s1} file={file}"
     | _ => s!"second={showOutcomeWit s1 1} holders={countHolding s1}"
   | "drop_removes_foreign" =>
-    let s1 := acquireAlone (initHeld 3 seqNow debug false (seqNow - 301)) 1
+    let s1 := acquireAlone (src (initHeld 3 seqNow debug false (seqNow - 301))) 1
     match s1.pc 1 with
     | .holding =>
       let s2 := runP s1 [0, 0, 0]
